@@ -316,8 +316,9 @@ pub fn vec_znx_rsh<R, A, ZNXARI, const OVERWRITE: bool>(
 
     // Limbs between the last limb of res and the first shifted limb of a hold no data,
     // but the carry still travels through them.
+    let n: usize = res.n();
     for _ in res_size..steps {
-        znx_normalize_carry_through_empty_limb_ref(base2k, carry);
+        znx_normalize_carry_through_empty_limb_ref(base2k, &mut carry[..n]);
     }
 
     if OVERWRITE {
@@ -408,8 +409,9 @@ where
 
     // Limbs between the last limb of res and the first shifted limb of a hold no data,
     // but the carry still travels through them.
+    let n: usize = res.n();
     for _ in res_size..steps {
-        znx_normalize_carry_through_empty_limb_ref(base2k, carry);
+        znx_normalize_carry_through_empty_limb_ref(base2k, &mut carry[..n]);
     }
 
     let mid_range: usize = res_start.saturating_sub(res_end);
